@@ -22,7 +22,8 @@ open Hidi Hidi.Watch
 
 /-- the source-dependent parameters of the model, regenerated from monitor.go on every run -/
 theorem C19_source_facts :
-    Gen.watchSuffix = ".toml" ∧ Gen.watchHandoffSelectsCtx = true ∧ Gen.watchOpTest = "event.Op != fsnotify.Write" := by
+    Gen.watchSuffix = ".toml" ∧ Gen.watchHandoffSelectsCtx = true ∧ Gen.watchOpTest = "event.Op != fsnotify.Write" ∧
+    Gen.watchCloserGoroutine = true := by
   decide
 
 /-! ### accounting -/
@@ -221,6 +222,47 @@ theorem C19_stops (w : W) (hs : w.selectsCtx = true) (hc : w.cancelled = true) :
   unfold settleAll
   apply settle_stops _ w hs hc
   split <;> omega
+
+theorem soloStep_keeps (w : W) (st : Step) (h : soloStep w = some st) :
+    (step w st).cancelled = w.cancelled ∧ (step w st).hasCloser = w.hasCloser := by
+  unfold soloStep at h
+  split at h
+  · cases h; simp only [step]; (repeat' split) <;> exact ⟨rfl, rfl⟩
+  · split at h
+    · cases h; simp only [step]; (repeat' split) <;> exact ⟨rfl, rfl⟩
+    · split at h
+      · cases h; simp only [step]; (repeat' split) <;> exact ⟨rfl, rfl⟩
+      · cases h
+
+theorem settle_keeps (n : Nat) : ∀ w : W, (settle n w).cancelled = w.cancelled ∧ (settle n w).hasCloser = w.hasCloser := by
+  induction n with
+  | zero => intro w; exact ⟨rfl, rfl⟩
+  | succ n ih =>
+    intro w
+    simp only [settle]
+    split
+    · rename_i st hst
+      obtain ⟨a, b⟩ := soloStep_keeps w st hst
+      obtain ⟨c, d⟩ := ih (step w st)
+      exact ⟨c.trans a, d.trans b⟩
+    · exact ⟨rfl, rfl⟩
+
+/-- **the watcher stops**: after cancellation the event-loop goroutine returns *and* the fsnotify watcher is closed, from
+    every state, without any consumer step — the closer goroutine does not depend on where the event loop is (in
+    particular not on whether the hand-off was abandoned) -/
+theorem C19_watcher_stops (w : W) (hs : w.selectsCtx = true) (hcl : w.hasCloser = true) (hc : w.cancelled = true) :
+    stopped (closeW (settleAll w)) = true := by
+  have h1 := C19_stops w hs hc
+  obtain ⟨a, b⟩ := settle_keeps (w.queue.length + 2) w
+  have a' : (settleAll w).cancelled = true := a.trans hc
+  have b' : (settleAll w).hasCloser = true := b.trans hcl
+  unfold stopped closeW closeEnabled
+  rw [a', b']
+  cases ho : (settleAll w).watcherOpen <;> simp [h1, ho]
+
+/-- without the closer goroutine the watcher stays open when the hand-off is abandoned (the defect of a seeded change) -/
+example : let w : W := { suffix := ".toml", selectsCtx := true, hasCloser := false, pc := .offering, cancelled := true }
+    (closeW (settleAll w)).pc = .done ∧ (closeW (settleAll w)).watcherOpen = true := by decide
 
 /-- **the unguarded hand-off can block forever**: offering + cancelled + no reader ⇒ no goroutine step is enabled -/
 theorem C19_stuck_unguarded :
